@@ -53,10 +53,18 @@ class Model:
             else:
                 self.decls.append("var %d..%d: %s%s;" % (v, v, name, anno))
         else:
-            # `var int: x = c` style: fixed by assignment
+            # `var int: x = c` style: fixed by assignment - to a literal or to a parameter, declared
+            # with a range or with a set
             v = rng.choice(vals)
+            rhs = str(v)
+            if rng.random() < 0.4:
+                rhs = self.fresh("P")
+                self.decls.insert(0, "int: %s = %d;" % (rhs, v))
+            if rng.random() < 0.4:
+                self.decls.append("var {%s}: %s%s = %s;" % (", ".join(map(str, vals)), name, anno, rhs))
+            else:
+                self.decls.append("var %d..%d: %s%s = %s;" % (lo, lo + width - 1, name, anno, rhs))
             vals = [v]
-            self.decls.append("var %d..%d: %s%s = %d;" % (lo, lo + width - 1, name, anno, v))
         self.doms.append(vals)
         idx = len(self.doms)
         self.names[name] = idx
@@ -80,10 +88,29 @@ class Model:
         return name
 
     def alias(self, target):
-        """`var lo..hi: y = x;` : y is another name of x"""
+        """`var lo..hi: y = x;` / `var {..}: y = x;` : y is another name of x (the declared range or
+        set contains the domain of x, or - a fifth of the time - restricts it)"""
+        rng = self.rng
         name = self.fresh("y")
-        vals = self.doms[self.names[target] - 1]
-        self.decls.append("var %d..%d: %s :: output_var = %s;" % (min(vals) - 1, max(vals) + 1, name, target))
+        idx = self.names[target]
+        vals = self.doms[idx - 1]
+        style = rng.random()
+        if style < 0.5 or not vals:
+            lo, hi = (min(vals) - 1, max(vals) + 1) if vals else (0, 1)
+            self.decls.append("var %d..%d: %s :: output_var = %s;" % (lo, hi, name, target))
+        elif style < 0.8:
+            sup = sorted(set(vals) | {min(vals) - 2, max(vals) + 2})
+            self.decls.append("var {%s}: %s :: output_var = %s;" % (", ".join(map(str, sup)), name, target))
+        else:
+            # the alias is declared over fewer values: both names are restricted to the intersection
+            keep = [v for v in vals if rng.random() < 0.6] or vals[:1]
+            decl = sorted(set(keep) | {max(vals) + 3})
+            if rng.random() < 0.5:
+                self.decls.append("var {%s}: %s :: output_var = %s;" % (", ".join(map(str, decl)), name, target))
+            else:
+                keep = [v for v in vals if min(keep) <= v <= max(keep)]
+                self.decls.append("var %d..%d: %s :: output_var = %s;" % (min(keep), max(keep), name, target))
+            self.doms[idx - 1] = keep
         self.names[name] = self.names[target]
         self.isbool[name] = False
         self.out.append((name, [self.names[target]], False, False))
@@ -318,11 +345,16 @@ def generate(rng, tier):
         if m.space * 3 > limit:
             break
         m.new_int(output=rng.random() < 0.85)
+        # (aliases are declared between the other variables as well, not only after them)
+        if rng.random() < 0.2:
+            m.alias(rng.choice(m.ints()))
     for _ in range(rng.randint(0, 2)):
         if m.space * 2 <= limit:
             m.new_bool(output=rng.random() < 0.85)
-    if rng.random() < 0.15 and m.ints():
-        m.alias(rng.choice(m.ints()))
+    # aliases: none, one, or several independent ones (also aliases of aliases)
+    for _ in range(rng.choice([0, 0, 0, 0, 1, 1, 2, 3])):
+        if m.ints():
+            m.alias(rng.choice(m.ints()))
     # an output array over some of the variables (and constants)
     if rng.random() < 0.3 and len(m.ints()) >= 2:
         els = [rng.choice(m.ints()) for _ in range(rng.randint(2, 3))]
